@@ -578,6 +578,10 @@ HARNESSES = [
             assumptions=['representation invariant of the pre-state: no empty containers or leaves, counts == subscribed values']),
 ]
 
+for _k in HARNESSES:
+    if _k.name in ('s_register_step', 's_subscribe_step'):
+        _k.stub_kernel = True      # drives private functions / extension points with stub containers (see vlib.runner)
+
 MANIFEST = {
     'engine': 'symx',
     'technique': 'symbolic execution (CrossHair engine + z3) over solver-enumerated register/unregister/subscribe/unsubscribe/rebuild histories '
